@@ -224,6 +224,18 @@ def repo_rel(path):
     return m.group(1) if m else os.path.basename(path)
 
 
+def _func_site(err, path, line):
+    """'<file>:<function>' of the stack frame at path:line (line numbers shift with every unrelated edit of the file and
+    must not be part of a fingerprint); '<file>' alone when the frame is not in the report."""
+    m = re.search(r"(?m)^\s*#\d+ 0x[0-9a-f]+ in (.+?) " + re.escape(path) + ":" + str(line) + r"(?::\d+)?$", err)
+    f = repo_rel(path)
+    if not m:
+        return f
+    fn = re.sub(r"\(.*$", "", m.group(1)).strip()
+    fn = re.sub(r"<.*>", "<>", fn)
+    return "%s:%s" % (f, fn)
+
+
 def parse_report(err):
     """-> (kind, site, ubsan_only) from a sanitizer report on stderr"""
     # drv keeps the last 20000 bytes of stderr: with template-heavy stacks the header can be cut off, the SUMMARY line never is
@@ -243,21 +255,21 @@ def parse_report(err):
         site = "?"
         for m in re.finditer(r"(?m)^\s*#\d+ 0x[0-9a-f]+ in (.+?) (/\S+?):(\d+)(?::\d+)?$", err):
             if build.REPO in m.group(2) or "/src/" in m.group(2):
-                site = "%s:%s" % (repo_rel(m.group(2)), m.group(3))
+                site = _func_site(err, m.group(2), m.group(3))
                 break
         if site == "?":
             m = re.search(r"SUMMARY: AddressSanitizer: [\w-]+ (/\S+?):(\d+)", err)
             if m:
-                site = "%s:%s" % (repo_rel(m.group(1)), m.group(2))
+                site = _func_site(err, m.group(1), m.group(2))
         return "asan " + asan.group(1), site, False
     asrt = re.search(r"(\S+?):(\d+): [^\n]*Assertion `([^\n]*)' failed", err)
     if asrt:
         # assert() is compiled out of the shipped (NDEBUG) configuration: a debugging aid firing, like a UBSan report
-        return "assert(%s)" % asrt.group(3)[:60], "%s:%s" % (repo_rel(asrt.group(1)), asrt.group(2)), True
+        return "assert(%s)" % asrt.group(3)[:60], repo_rel(asrt.group(1)), True
     if ub:
         msg = re.sub(r"0x[0-9a-f]+", "ADDR", ub.group(3))
         msg = re.sub(r"-?\d+(\.\d+)?(e[+-]?\d+)?", "N", msg)
-        return "ubsan " + msg, "%s:%s" % (repo_rel(ub.group(1)), ub.group(2)), True
+        return "ubsan " + msg, _func_site(err, ub.group(1), ub.group(2)), True
     return None, None, False
 
 
